@@ -269,38 +269,40 @@ Inductive cw_sst := SsNorm | SsDrop | SsEsc | SsOct (n : nat) (v : N).
 Fixpoint cw_assoc (c : N) (l : list (N * N)) : option N :=
   match l with [] => None | (a, b) :: r => if c =? a then Some b else cw_assoc c r end.
 
-Fixpoint cw_lex_str (s : cw_bytes) (st : cw_sst) (acc : cw_bytes) : option (cw_bytes * cw_bytes) :=
+(* [whole]: the chunk rule copies yyleng bytes (true) or stops at the first NUL (false, as pinned) *)
+Fixpoint cw_lex_str_m (whole : bool) (s : cw_bytes) (st : cw_sst) (acc : cw_bytes) : option (cw_bytes * cw_bytes) :=
   match s with
   | [] => None                                    (* <STRING><<EOF>> *)
   | c :: r =>
       let norm (acc : cw_bytes) :=
         if c =? 34 then Some (rev acc, r)
         else if c =? 10 then None                 (* unterminated string literal *)
-        else if c =? 92 then cw_lex_str r SsEsc acc
-        else if c =? 0 then (if cw_chunk_whole then cw_lex_str r SsNorm (c :: acc) else cw_lex_str r SsDrop acc)
-        else match st with SsDrop => cw_lex_str r SsDrop acc | _ => cw_lex_str r SsNorm (c :: acc) end in
+        else if c =? 92 then cw_lex_str_m whole r SsEsc acc
+        else if c =? 0 then (if whole then cw_lex_str_m whole r SsNorm (c :: acc) else cw_lex_str_m whole r SsDrop acc)
+        else match st with SsDrop => cw_lex_str_m whole r SsDrop acc | _ => cw_lex_str_m whole r SsNorm (c :: acc) end in
       match st with
       | SsNorm | SsDrop => norm acc
       | SsEsc =>
-          if cw_is_digit c then (if c <? 56 then cw_lex_str r (SsOct 1 (c - 48)) acc else None)
-          else if c =? 10 then cw_lex_str r SsNorm (c :: acc)
+          if cw_is_digit c then (if c <? 56 then cw_lex_str_m whole r (SsOct 1 (c - 48)) acc else None)
+          else if c =? 10 then cw_lex_str_m whole r SsNorm (c :: acc)
           else match cw_assoc c cw_lexer_escapes with
-               | Some b => cw_lex_str r SsNorm (b :: acc)
+               | Some b => cw_lex_str_m whole r SsNorm (b :: acc)
                | None => None                     (* bad escape sequence *)
                end
       | SsOct n v =>
           if cw_is_digit c then
-            (if (c <? 56) && Nat.ltb n 3 then cw_lex_str r (SsOct (S n) (v * 8 + (c - 48))) acc else None)
+            (if (c <? 56) && Nat.ltb n 3 then cw_lex_str_m whole r (SsOct (S n) (v * 8 + (c - 48))) acc else None)
           else if 255 <? v then None
           else (* the escape is complete; c is scanned in the normal state *)
             let acc := v :: acc in
             if c =? 34 then Some (rev acc, r)
             else if c =? 10 then None
-            else if c =? 92 then cw_lex_str r SsEsc acc
-            else if c =? 0 then (if cw_chunk_whole then cw_lex_str r SsNorm (c :: acc) else cw_lex_str r SsDrop acc)
-            else cw_lex_str r SsNorm (c :: acc)
+            else if c =? 92 then cw_lex_str_m whole r SsEsc acc
+            else if c =? 0 then (if whole then cw_lex_str_m whole r SsNorm (c :: acc) else cw_lex_str_m whole r SsDrop acc)
+            else cw_lex_str_m whole r SsNorm (c :: acc)
       end
   end.
+Definition cw_lex_str := cw_lex_str_m cw_chunk_whole.
 
 (* HEREDOC state: up to the first `}}}` *)
 Fixpoint cw_heredoc (s acc : cw_bytes) : option (cw_bytes * cw_bytes) :=
@@ -407,11 +409,12 @@ Fixpoint cw_lex_s (s : cw_bytes) (skip : nat) : option (list cw_tok) :=
 Definition cw_lex (s : cw_bytes) : option (list cw_tok) := cw_lex_s s 0.
 
 (* the string literal alone (C17_string_roundtrip) *)
-Definition cw_lex_string (s : cw_bytes) : option cw_bytes :=
+Definition cw_lex_string_m (whole : bool) (s : cw_bytes) : option cw_bytes :=
   match s with
-  | 34 :: r => match cw_lex_str r SsNorm [] with Some (str, []) => Some str | _ => None end
+  | 34 :: r => match cw_lex_str_m whole r SsNorm [] with Some (str, []) => Some str | _ => None end
   | _ => None
   end.
+Definition cw_lex_string := cw_lex_string_m cw_chunk_whole.
 
 (* ---------------------------------------------------------------- literal parser (writer skeleton only) *)
 Definition cw_tok_is_p (t : cw_tok) (c : N) : bool := match t with CwTP x => x =? c | _ => false end.
